@@ -722,6 +722,12 @@ impl Lab {
         if self.clients.len() >= 40 {
             return Ok(());
         }
+        // Only while the listening descriptor is certainly still ours (handle alive, or an accept the lab still
+        // holds keeps it open): once it is closed the port can be handed to a listener of another process
+        // (parallel shards), and a connection made here would show up there as a peer "nobody made".
+        if self.listener.is_none() && !self.ops.iter().any(|o| matches!(o.kind, Kind::Accept | Kind::AcceptMulti) && o.st == St::Pending) {
+            return Ok(());
+        }
         match TcpStream::connect(self.listen_addr) {
             Ok(c) => {
                 let port = c.local_addr().map(|a| a.port()).unwrap_or(0);
@@ -1481,6 +1487,7 @@ fn check_lifetimes(lab: &Lab, items: &[Item]) -> R<()> {
                         s.pool_done = true;
                     }
                 }
+                Event::PoolSent { .. } => {}
                 Event::RingClosed => ring_closed = true,
                 Event::OpFree { id } => {
                     frees += 1;
@@ -1563,6 +1570,10 @@ fn check_lifetimes(lab: &Lab, items: &[Item]) -> R<()> {
             match it {
                 Item::DriverDropped => dropped_at = Some(pos),
                 Item::Hook(Event::PoolDone { id }, _) if dropped_at.is_some() => {
+                    done_after_drop.insert(*id);
+                }
+                // the job computed its result in time but found the driver gone when handing it back
+                Item::Hook(Event::PoolSent { id, delivered: false }, _) => {
                     done_after_drop.insert(*id);
                 }
                 _ => {}
@@ -1705,7 +1716,8 @@ fn pool_jobs_open() -> usize {
                 Event::Submit { id, path: SubmitPath::Blocking } => {
                     open.insert(id);
                 }
-                Event::PoolDone { id } => {
+                // the job is only out of the way once its entry was handed back (or found nobody to take it)
+                Event::PoolSent { id, .. } => {
                     open.remove(&id);
                 }
                 _ => {}
@@ -1726,7 +1738,7 @@ fn wait_pool_done(lab: &Lab) -> bool {
                     Event::Submit { id, path: SubmitPath::Blocking } => {
                         open.insert(id);
                     }
-                    Event::PoolDone { id } => {
+                    Event::PoolSent { id, .. } => {
                         open.remove(&id);
                     }
                     _ => {}
